@@ -232,3 +232,53 @@ Definition e_timeline (v : uval) : uval := vres (timeline (getbool (arg 0 v)) (g
 (* [mixers_present; answers; retries; observed result] *)
 Definition e_P16 (v : uval) : uval :=
   vbool (P16 (getbool (arg 0 v)) (getans (arg 1 v)) (getnat (arg 2 v)) setup_kinds (getres (arg 3 v))).
+
+(* ---- C20 ---- *)
+From PV Require Import Model.Filters Spec.C20.
+Definition getfval (v : uval) : fval :=
+  match getN (arg 0 v) with
+  | 0%N => FNum (getZ (arg 1 v))
+  | 1%N => FStr (getZ (arg 1 v))
+  | 2%N => FList (map getZ (getL (arg 1 v)))
+  | _ => FParam (getZ (arg 1 v)) (getZ (arg 2 v)) (getZ (arg 3 v)) (getbool (arg 4 v))
+  end.
+Definition vfval (x : fval) : uval :=
+  match x with
+  | FNum z => VL [vN 0; VZ z] | FStr i => VL [vN 1; VZ i] | FList l => VL [vN 2; VL (map VZ l)]
+  | FParam v lo hi p => VL [vN 3; VZ v; VZ lo; VZ hi; vbool p]
+  end.
+Definition getfkind (v : uval) : fkind :=
+  match getN (arg 0 v) with
+  | 0%N => KOnChange | 1%N => KDebounce (getnat (arg 1 v)) | 2%N => KThrottle (getZ (arg 1 v)) | 3%N => KDelta
+  | _ => KAggregate (getZ (arg 1 v))
+  end.
+Definition getcalls (v : uval) : list (Z * fval) := map (fun c => (getZ (arg 0 c), getfval (arg 1 c))) (getL v).
+Definition getouts (v : uval) : list (option fval) := map (getopt getfval) (getL v).
+(* [kind; t0; calls] -> [deliveries; final baseline (option); final pending sum] *)
+Definition e_frun (v : uval) : uval :=
+  let r := frun (getfkind (arg 0 v)) (finit (getfkind (arg 0 v)) (getZ (arg 1 v))) (getcalls (arg 2 v)) in
+  VL [vlist (vopt vfval) (fst r); vopt vfval (f_value (snd r)); VZ (f_sum (snd r))].
+Definition e_frun2 (v : uval) : uval :=
+  vlist (vopt vfval) (frun2 (getfkind (arg 0 v)) (getfkind (arg 1 v)) (finit (getfkind (arg 0 v)) (getZ (arg 2 v)))
+                            (finit (getfkind (arg 1 v)) (getZ (arg 2 v))) (getcalls (arg 3 v))).
+(* P20: [kind; t0; calls; observed deliveries; observed baseline (option); observed pending sum] *)
+Definition e_P20 (v : uval) : uval :=
+  let calls := getcalls (arg 2 v) in
+  let outs := getouts (arg 3 v) in
+  vbool
+    match getfkind (arg 0 v) with
+    | KOnChange => P_on_change None calls outs
+    | KDebounce n => P_debounce n None 0 calls outs
+    | KThrottle sec => P_throttle sec None calls outs && gaps_ok sec (delivery_times calls outs)
+    | KDelta =>
+        match calls, getopt getfval (arg 4 v) with
+        | (_, FNum x0) :: _, Some (FNum base) =>
+            Nat.eqb (length calls) (length outs) &&
+            (sum_outs outs =? base - x0)%Z &&
+            (Z.abs (num_of (snd (last calls (0%Z, FNum x0))) - base) <=? tol64)%Z
+        | [], _ => match outs with [] => true | _ => false end
+        | _, _ => false
+        end
+    | KAggregate sec =>
+        Nat.eqb (length calls) (length outs) && (sum_outs outs + getZ (arg 5 v) =? sum_calls calls)%Z
+    end.
